@@ -63,7 +63,7 @@ def roundtrip(ch, size, want):
     data = hx.fix(frame.marshal(header.ContentHeader(0, size, p), ch))
     refp = dict(want)
     if not ref.equal(data, ref.content_header_frame(ch, size, spec.PROPERTIES, refp,
-                                                     epoch_of=lambda d: hx.dt_parts(d)[1])):
+                                                     epoch_of=lambda d: hx.dt_parts(d)[1], single_bits=hx.single_bits)):
         return False
     n, chan, f = frame.unmarshal(data)
     t, pc, sz = frame.frame_parts(data)
@@ -178,6 +178,10 @@ def partitions(tier, seed):
                            '        want = {k: None for k in NAMES}\n'
                            '        want["headers"] = hx.table([("d", decimal.Decimal(lit)), ("n", n)])\n'
                            '        ok = ok and roundtrip(ch, size, want)\n'
+                           '    want = {k: None for k in NAMES}\n'
+                           '    want["headers"] = hx.table([("amount", decimal.Decimal("2")), ("factor", 2.0),\n'
+                           '                                ("g", decimal.Decimal("0.125")), ("h", 0.125), ("i", 1), ("j", True)])\n'
+                           '    ok = ok and roundtrip(ch, size, want)\n'
                            '    for key in ("\\u00e9" * 65, "\\u20ac" * 85, "a" * 128):\n'
                            '        want = {k: None for k in NAMES}\n'
                            '        want["headers"] = hx.table([(key, n), ("z" + key[1:], True)])\n'
